@@ -163,6 +163,23 @@ def run(ctx):
         rep.note("%s: %d macro-steps exported (TLC %.0fs), %d behaviours (%.0fs)" % (name, nedges, t1 - t0, len(walks), time.time() - t1))
         os.remove(edges)
     rep.exhaustive = True
+    nall = len(behaviours)
+    cap = int(os.environ.get("VERIF_ALG_CAP", "0") or 0) or (7000 if ctx.quick else 10 ** 9)
+    if nall > cap:
+        # quick tier: seeded, shape-stratified sample of the edge-covering behaviours (TLC still explored all of them)
+        groups = collections.defaultdict(list)
+        for b in behaviours:
+            groups[b["cfg"]["shape"]].append(b)
+        per = max(1, cap // max(1, len(groups)))
+        chosen, rest = [], []
+        for sid in sorted(groups):
+            g = groups[sid]
+            ctx.rng.shuffle(g)
+            chosen += g[:per]
+            rest += g[per:]
+        ctx.rng.shuffle(rest)
+        behaviours = chosen + rest[:max(0, cap - len(chosen))]
+        rep.note("replaying a seeded shape-stratified sample of %d of %d edge-covering behaviours (seed %d)" % (len(behaviours), nall, ctx.seed))
     bp = os.path.join(ctx.work, "behaviours.ndjson")
     with open(bp, "w") as f:
         for i, b in enumerate(behaviours):
